@@ -136,9 +136,15 @@ func init() {
 	registerWorldProp(&base)
 }
 
+// c08MemBaseline, if set, is the first execution's oracle memory (see the replay path).
+var c08MemBaseline string
+
 func judgeReplicas(m *Machine, replicas int, restarts []int64, procs int) *Violation {
 	cont := m.C.Blocks
 	memCont := sim.OracleMemDumpNoNonce()
+	if c08MemBaseline != "" {
+		memCont = c08MemBaseline // (a replay judges the same history several times: the first execution's memory is taken once)
+	}
 	for k := 0; k < replicas; k++ {
 		set := map[int64]bool{}
 		if k == replicas-1 {
@@ -257,6 +263,8 @@ func runC08(t *testing.T, propName, testName string) {
 		if m == nil {
 			t.Fatalf("replay: history cannot be recorded")
 		}
+		c08MemBaseline = sim.OracleMemDumpNoNonce()
+		defer func() { c08MemBaseline = "" }()
 		for i := 0; i < 3; i++ { // map orders differ per execution: try a few times
 			if v := judgeReplicas(m, maxInt(ex.Replicas, 4), ex.Restarts, 0); v != nil {
 				t.Fatalf("VIOLATION %s", v.Error())
